@@ -57,7 +57,8 @@ class RecLog:
         self._rec("error", fmt, *a)
 
     def exception(self, fmt, *a, **k):
-        self._rec("exception", fmt, *a)
+        et = sys.exc_info()[0]
+        self.records.append(("exception", fmt, a + ((et.__name__,) if et is not None else ())))
 
     def critical(self, fmt, *a, **k):
         self._rec("critical", fmt, *a)
